@@ -168,7 +168,21 @@ def check(cx):
     if h:
         cx.verdict(p.reaches(h.id, BT + "dealloc_overflow_chain") and p.reaches(h.id, DEALLOC), r4, "dealloc:overflow", h.where(),
                    "frees tree pages and overflow chains", "Btree::dealloc no longer frees overflow chains")
+        # an empty tree still owns its root page: every success path of dealloc frees at least that page
+        from axvlib.core import natural_loops as _nl
+        T_ = p.must_reach_set({DEALLOC})
+        heads = [hh for hh, body in _nl(h) if any(c.bb in body and any(t in T_ for t in p.targets(c)) for c in h.calls())]
+        cx.verdict(bool(heads) and not h.success_returns_from(0, blocked=set(heads)), r4, "dealloc:every-path-frees", h.where(),
+                   "every success path passes the loop that returns the visited pages to the pager",
+                   "Btree::dealloc has a success path that frees nothing (e.g. an early return for an empty tree): the root page of a "
+                   "dropped empty table is neither in a tree nor on the free list")
     h = cx.guard(r4, "remove_relation", p.fn, "schema::catalog::Catalog::remove_relation")
     if h:
         cx.verdict(p.reaches(h.id, BT + "dealloc"), r4, "remove_relation:frees-tree", h.where(), "reaches Btree::dealloc",
                    "dropping a relation no longer frees its tree")
+
+    # ---- C11.5 (construct shared with C12.1) ---------------------------------------------------------------------------
+    from . import c12
+    cx.include(c12, {"C12.1"}, "C11.5", "shared with C12.1: every write latch marks its frame dirty; the free list is linked through overflow-page "
+               "write latches, so a latch that does not mark the frame dirty keeps the link in the cache only and the list is cut at the "
+               "next flush (the pages behind the cut have no owner)", floor=3)
